@@ -320,6 +320,7 @@ func run(c Case) (pbt.Outcome, error) {
 	wantD := map[time.Duration]int64{}
 	var finite, nans int64
 	boundary := false
+	nonFiniteHigh := false
 	stopwatches := false
 	for _, op := range c.Ops {
 		switch op.K {
@@ -340,6 +341,9 @@ func run(c Case) (pbt.Outcome, error) {
 			}
 			if math.IsNaN(v) || math.IsInf(v, 0) {
 				boundary = true
+			}
+			if math.IsNaN(v) || math.IsInf(v, 1) {
+				nonFiniteHigh = true
 			}
 			for _, b := range vspec {
 				if v == b || v == math.Nextafter(b, math.Inf(1)) || v == math.Nextafter(b, math.Inf(-1)) {
@@ -410,6 +414,19 @@ func run(c Case) (pbt.Outcome, error) {
 				if !inV(vpairs, e.Lo, e.Hi) && !(altSingle && false) {
 					errs.Addf("delivered value bucket [%v,%v] is not a pair of the reference tiling %v", e.Lo, e.Hi, vpairs)
 				}
+				// with duplicated bounds several pairs share one upper bound: the sample belongs to the
+				// FIRST of them (the others are empty, (x,x]); only +Inf/NaN may sit in the very last pair
+				for _, p := range vpairs {
+					if math.Float64bits(p.Hi+0) == math.Float64bits(e.Hi+0) {
+						if p.Lo != e.Lo {
+							// e's pair is a later one with the same upper bound
+							if !(e.Lo == vpairs[len(vpairs)-1].Lo && e.Hi == vpairs[len(vpairs)-1].Hi && nonFiniteHigh) {
+								errs.Addf("%d samples delivered in the empty bucket (%v,%v]: the bucket with the smallest upper bound >= the sample is (%v,%v]", e.I, e.Lo, e.Hi, p.Lo, p.Hi)
+							}
+						}
+						break
+					}
+				}
 				gotV[e.Hi+0] += e.I
 				total += e.I
 			case rec.KHDuration:
@@ -421,6 +438,14 @@ func run(c Case) (pbt.Outcome, error) {
 				}
 				if !inD(dpairs, e.DLo, e.DHi) && !altSingleDefaultD(altSingle, e.DLo, e.DHi) {
 					errs.Addf("delivered duration bucket [%d,%d] is not a pair of the reference tiling %v", e.DLo, e.DHi, dpairs)
+				}
+				for _, p := range dpairs {
+					if p.Hi == e.DHi {
+						if p.Lo != e.DLo {
+							errs.Addf("%d samples delivered in the empty bucket (%v,%v]: the bucket with the smallest upper bound >= the sample is (%v,%v]", e.I, e.DLo, e.DHi, p.Lo, p.Hi)
+						}
+						break
+					}
 				}
 				gotD[e.DHi] += e.I
 				total += e.I
